@@ -167,6 +167,19 @@ def task(job):
             except Exception as e:
                 dv = None
                 out["problems"].append(f"decode_output({reading!r}) raised {e!r}")
+            # the same reading as a list of bools, decoded twice: same value, and the caller's list untouched
+            if dv is not None:
+                try:
+                    lst = [ch == "1" for ch in reading]
+                    keep = list(lst)
+                    d1 = qf.decode_output(lst)
+                    d2 = qf.decode_output(lst)
+                    if lst != keep:
+                        out["problems"].append(f"decode_output modified the caller's reading {keep} -> {lst}")
+                    elif not (val_equal(ret_t, d1, dec) and val_equal(ret_t, d2, dec)):
+                        out["problems"].append(f"decode_output of the list reading {keep} gave {d1!r} then {d2!r}, the string reading gave {dec!r}")
+                except Exception as e:
+                    out["problems"].append(f"decode_output of a list reading raised {e!r}")
             # decode_counts aggregates by decoded value
             if vi == 0 and dv is not None:
                 try:
